@@ -9,7 +9,8 @@ Transliteration, in the order of the Go code:
     ns, rest := NamespaceByStoragePath(path)      -- "namespaces/<uuid>/<rest>"; otherwise (root, path)
     protected: HasPrefix(rest, p) for p in {core/keyring, core/cluster/local/info}  ⇒ error
     specialPath := rest == core/seal-config || rest == core/recovery-config
-    ns == nil (unknown uuid) or root: special ⇒ direct physical, else root barrier;  allowWrites := ns != nil
+    ns == nil (unknown uuid) or root: special && rest == path ⇒ direct physical, else root barrier;
+                                      allowWrites := ns != nil   (`rest == path`: no namespace prefix was stripped — F47 repair)
     child namespace:                  special ⇒ barrier of the parent, else the namespace's own barrier
     every handler then calls storage.Get/Put/Delete(ctx, path) with the FULL path.
 -/
@@ -81,8 +82,8 @@ def storageByPath (known : List Path) (path : Path) : Access :=
   if protectedPaths.any (fun p => p.isPrefixOf rest) then .denied else
   let special := rest = sealConfigPath ∨ rest = recoveryConfigPath
   match ns with
-  | .root => if special then .direct true else .barrier .rootBarrier true
-  | .unknown => if special then .direct false else .barrier .rootBarrier false
+  | .root => if special ∧ rest = path then .direct true else .barrier .rootBarrier true
+  | .unknown => if special ∧ rest = path then .direct false else .barrier .rootBarrier false
   | .child u => if special then .barrier (.parentBarrier u) true else .barrier (.ownBarrier u) true
 
 /-- `handleRawList` appends a slash to a non-empty path that lacks one before selecting the storage -/
